@@ -4,17 +4,9 @@
    checked load leaves its block, no signed operation overflows, no fuel runs out. *)
 From Coq Require Import List ZArith NArith Bool Lia.
 From NV Require Import Bytes UcDefs CLite CLiteProps GenCFuncs.
+From NV Require Export CLiteTac.
 Import ListNotations.
 Local Open Scope Z_scope.
-
-Ltac enter f cf :=
-  rewrite callf_S; cbn [nth_error cprog f cf fn_nparams fn_nlocals fn_body length Nat.eqb Nat.sub repeat app].
-(* the goal depends on a byte c < 256 only through closed computations: try all 256 values *)
-Ltac sweep_byte c Hc :=
-  pattern c; revert c Hc; apply byte_cases;
-  let l := eval vm_compute in bytes256 in change bytes256 with l;
-  repeat (apply Forall_cons; [try (match goal with |- context [exec _ ?f _ _] => is_var f; destruct f end); vm_compute; reflexivity|]);
-  apply Forall_nil.
 
 (* ------------------------------------------------------------------ uc_len *)
 Theorem tr_uc_len m b s o d fuel :
@@ -29,25 +21,6 @@ Proof.
 Time Qed.
 
 (* ------------------------------------------------------------------ uc_code *)
-Definition sx (b : N) : Z := wrap I32 (wrap I8 (Z.of_N b)).     (* a char promoted to int *)
-Definition resZ_eqb (a b : res Z) : bool :=
-  match a, b with Ok x, Ok y => x =? y | _, _ => false end.
-Lemma resZ_eqb_eq a b : resZ_eqb a b = true -> a = b.
-Proof. destruct a, b; cbn; try discriminate. intro H. apply Z.eqb_eq in H. now subst. Qed.
-(* a fact about one byte, decided by trying the 256 values *)
-Ltac byte_fact := 
-  match goal with
-  | |- forall c, (c < 256)%N -> @eq (res Z) (@?L c) (@?R c) =>
-      intros c Hc; apply resZ_eqb_eq; revert c Hc;
-      apply (byte_sweep (fun c => resZ_eqb (L c) (R c))); vm_compute; reflexivity
-  | |- forall c, (c < 256)%N -> @eq bool (@?L c) (@?R c) =>
-      intros c Hc; apply eqb_prop; revert c Hc;
-      apply (byte_sweep (fun c => Bool.eqb (L c) (R c))); vm_compute; reflexivity
-  | |- forall c, (c < 256)%N -> @eq Z (@?L c) (@?R c) =>
-      intros c Hc; apply Z.eqb_eq; revert c Hc;
-      apply (byte_sweep (fun c => Z.eqb (L c) (R c))); vm_compute; reflexivity
-  end.
-
 Lemma cc_c0 : forall c, (c < 256)%N ->
   negb (Z.land (Z.lnot (Z.of_N c)) 192 =? 0) = negb (bit c 128 && bit c 64).
 Proof. byte_fact. Qed.
@@ -57,13 +30,6 @@ Lemma cc_10 : forall c, (c < 256)%N -> negb (Z.land (Z.lnot (Z.of_N c)) 16 =? 0)
 Proof. byte_fact. Qed.
 Lemma cc_08 : forall c, (c < 256)%N -> negb (Z.land (Z.lnot (Z.of_N c)) 8 =? 0) = negb (bit c 8).
 Proof. byte_fact. Qed.
-(* what xstep leaves of a << k computed in int *)
-Definition shl32 (a k : Z) : res Z := if a <? 0 then Err EOverflow else chk I32 (Z.shiftl a k).
-Ltac fold_shl :=
-  repeat match goal with
-         | |- context [if ?a <? 0 then Err EOverflow else chk I32 (Z.shiftl ?a ?k)] =>
-             change (if a <? 0 then Err EOverflow else chk I32 (Z.shiftl a k)) with (shl32 a k)
-         end.
 Lemma sh_1f_6 : forall c, (c < 256)%N ->
   shl32 (Z.land (Z.of_N c) 31) 6 = Ok (Z.of_N (N.shiftl (N.land c 31) 6)).
 Proof. byte_fact. Qed.
@@ -173,10 +139,6 @@ Lemma cc_z0i : forall c, (c < 256)%N -> (wrap I32 (wrap I8 (Z.of_N c)) =? 0) = (
 Proof. byte_fact. Qed.
 Lemma cc_cont_of : forall c, (c < 256)%N -> (bit c 128 && negb (is_lead c)) = is_cont c.
 Proof. byte_fact. Qed.
-
-Ltac xload Hs H256 p :=
-  rewrite (load_str _ _ _ _ p Hs) by lia; xstep;
-  rewrite ?wrap_byte_chain by (apply nthb_lt256; exact H256); rewrite ?nb2z.
 
 Theorem tr_uc_end m b s o d fuel :
   str_at m b s -> bytes_lt256 s -> (o <= length s)%nat -> (length s < fuel)%nat ->
